@@ -39,6 +39,9 @@ def queries(tier):
     for k in (0, 1, 2, 3):
         qs.append(Query("allocfail-aio-sys-init-k%d" % k, "c20/aio_sysinit.c", tus=["core/list.c"], env=ENV, defs={"FAILK": k}, cdefs=["-DENV_NO_CV_UNTIL_X"],
                         unwind=10, timeout=120, concrete=True, params={"entry_point": "nni_aio_sys_init", "failing_allocation": "k=%d" % k}))
+    WENV = ENV + ["env_aio.c", "env_msg.c"]
+    qs.append(Query("allocfail-ws-read-finish-msg", "c16/wsframe.c", tus=["core/list.c"], env=WENV, defs={"FINISH": 1, "NF": 2, "SERVER": 1, "FAILMSG": 1},
+                    unwind=30, timeout=300, params={"entry_point": "ws_read_finish_msg", "failing_allocation": "the message for the reassembled frames"}))
     return qs
 
 MANIFEST = {
